@@ -1,4 +1,6 @@
 import PsV.Proofs.Nnls
+import Mathlib.Tactic.FinCases
+import Mathlib.Tactic.NormNum
 /-!
 # C11 — the non-negative least-squares solvers return the constrained optimum
 
@@ -189,5 +191,117 @@ theorem C11_certificate (n : ℕ) (A : Mat) (b x tol : Vec) (xa : Array ℚ) (hA
   refine ⟨hT, fun z hz => kkt_tol_gap _ _ _ _ hA.spsd hT z hz, ?_⟩
   rw [distCheck_iff]
   exact kkt_tol_dist _ _ _ _ _ hA.spsd hT hK
+
+/-! ## the BLOCK3 state machine (`nnls_normal_block3` + `walk_descents`, repaired code) -/
+
+/-- **Non-negativity invariant** (needed by C10): for *every* environment — any linear solver, any residual
+function, any dual update, any iteration caps — and every exit (`converged`, `iterCap`, `innerFuel`), the vector the
+state machine returns is component-wise `≥ 0`: an unconstrained solution is accepted only if it has no negative
+entry, bound coefficients are set to zero, and projected trial points are clamped. -/
+theorem block3_nonneg_invariant (E : B3Env) (y0 : ℕ → ℚ) :
+    ∀ i, 0 ≤ at0 (block3Run E y0).1.x i := by
+  unfold block3Run
+  apply outerLoop_nn
+  intro i; simp [b3Init, at0_empty]
+
+/-- **The convergence exit certifies KKT.**  If the environment computes exact solves on the passive set and exact
+duals (`ExactEnv`), a run that leaves through `if (nH2 == 0 && optimal_on_F) break;` returns a point accepted by the
+verified checker with the solver's tolerance `kkt_tolerance` — hence (`kktCheck_sound`, `kkt_tol_gap`) a tolerance-KKT
+point.  Nothing of the kind holds for the `iterCap` exit (`block3_cap_exit_not_kkt`).
+Before the repair `fixes/C11-1.diff` the C code left through `if (nH2 == 0) break;` also right after a projected
+step of `walk_descents`, where `x[F]` is not the solution on `F`: the statement was false for the code as it was. -/
+theorem block3_exit_kkt (E : B3Env) (A : Mat) (b : Vec) (hE : ExactEnv E A b)
+    (hexit : (block3Run E fun i => -(b i)).2 = B3Exit.converged) :
+    kktCheck E.n A b (at0 (block3Run E fun i => -(b i)).1.x) (fun _ => E.tol) = true := by
+  unfold block3Run at hexit ⊢
+  exact outerLoop_kkt E A b hE _ _ (b3Init_inv E A b) hexit
+
+/-- the dual update of the executable exact environment is exact (its solve is exact whenever the Gauss–Jordan
+elimination is; that part is checked per run by the driver, not proved) -/
+theorem exactEnv_dual_exact (n : ℕ) (A : Mat) (b : Vec) (tol : ℚ) (mi fu : ℕ) (inF : ℕ → Bool) (x : ℕ → ℚ) (i : ℕ) :
+    (exactEnv n A b tol mi fu).dual inF x i = grad n A b (fun j => if inF j then x j else 0) i := by
+  unfold exactEnv grad Nnls.mulVec
+  simp only
+  congr 1
+  apply sumTo_congr
+  intro j _
+  split <;> simp
+
+/-! ### concrete instances (non-vacuity) -/
+
+/-- a 2 × 2 system: `A = [[2,1],[1,2]]`, `b = (1, −1)`; minimiser `(1/2, 0)` with gradient `(0, 3/2)` -/
+def exA : Mat := fun i j => if i = j then 2 else 1
+def exb : Vec := fun i => if i = 0 then 1 else -1
+
+theorem exA_spd : SPD (toMat 2 exA) := by
+  constructor
+  · ext i j; fin_cases i <;> fin_cases j <;> simp [toMat, exA]
+  · intro v hv
+    have hne : v 0 ≠ 0 ∨ v 1 ≠ 0 := by
+      by_contra h
+      rw [not_or, not_not, not_not] at h
+      apply hv; ext i; fin_cases i <;> simp [h.1, h.2]
+    have : v ⬝ᵥ (toMat 2 exA) *ᵥ v = v 0 ^ 2 + v 1 ^ 2 + (v 0 + v 1) ^ 2 := by
+      simp [dotProduct, Matrix.mulVec, Fin.sum_univ_two, toMat, exA]; ring
+    rw [this]
+    rcases hne with h | h
+    · have := sq_pos_of_ne_zero h
+      nlinarith [sq_nonneg (v 1), sq_nonneg (v 0 + v 1)]
+    · have := sq_pos_of_ne_zero h
+      nlinarith [sq_nonneg (v 0), sq_nonneg (v 0 + v 1)]
+
+/-- `refNnls` finds the minimiser of the example (kernel evaluation of the executable definition) -/
+theorem ex_ref : refNnls 2 exA exb = some #[1/2, 0] := by decide +kernel
+
+/-- hypotheses of `kkt_unique_min`, `kkt_tol_dist`: an SPD matrix with an exact KKT point that has an active and an
+inactive constraint -/
+example : SPD (toMat 2 exA) ∧ KKT (toMat 2 exA) (toVec 2 exb) (toVec 2 (at0 #[1/2, 0])) :=
+  ⟨exA_spd, refNnls_sound 2 exA exb _ ex_ref⟩
+
+/-- hypotheses of `kktCheck_sound`, `kkt_tol_gap`, `C11_certificate`: a slightly wrong point accepted with a positive
+tolerance (and rejected with tolerance 0) -/
+example : kktCheck 2 exA exb (at0 #[1/2 + 1/1000, 0]) (fun _ => 1/100) = true ∧
+    kktCheck 2 exA exb (at0 #[1/2 + 1/1000, 0]) (fun _ => 0) = false ∧
+    distCheck 2 exA (fun _ => 1/100) (at0 #[1/2 + 1/1000, 0]) (at0 #[1/2, 0]) = true := by decide +kernel
+
+/-- hypothesis of `block3_exit_kkt`: the executable exact environment on the example leaves through the convergence
+exit (after freeing coefficient 0 and accepting the solve), with the minimiser -/
+example : (block3Run (exactEnv 2 exA exb (1/1000000) 120 16) fun i => -(exb i)).2 = B3Exit.converged ∧
+    (block3Run (exactEnv 2 exA exb (1/1000000) 120 16) fun i => -(exb i)).1.x = #[1/2, 0] := by decide +kernel
+
+/-- `ExactEnv` is satisfiable: a one-variable system with its exact solve -/
+example : ExactEnv { n := 1, tol := 0, solve := fun _ => #[3/2], resid := fun _ _ => 0,
+                     dual := fun inF x i => grad 1 (fun _ _ => 2) (fun _ => 3) (fun j => if inF j then x j else 0) i,
+                     maxIter := 120, innerFuel := 8 } (fun _ _ => 2) (fun _ => 3) := by
+  refine ⟨le_refl _, ?_, fun _ _ _ _ => rfl⟩
+  intro inF i hi hF
+  have hi' : i < 1 := hi
+  have : i = 0 := by omega
+  subst this
+  simp [grad, Nnls.mulVec, sumTo, hF, at0]
+  norm_num
+
+/-- **The iteration-cap exit carries no optimality claim**: a run stopped by the cap before the first iteration returns
+`x = 0`, which is not a KKT point of the example (`g₀ = −1 < 0`). -/
+theorem block3_cap_exit_not_kkt :
+    (block3Run (exactEnv 2 exA exb (1/1000000) 0 16) fun i => -(exb i)).2 = B3Exit.iterCap ∧
+    kktCheck 2 exA exb (at0 (block3Run (exactEnv 2 exA exb (1/1000000) 0 16) fun i => -(exb i)).1.x)
+      (fun _ => 1/1000000) = false := by decide +kernel
+
+/-- a 5 × 5 Gram system (taken from the generator) on which the state machine takes a projected step of
+`walk_descents` -/
+def exA5 : Mat := fun i j =>
+  ((([[3367, 529, 633, 1707, -144], [529, 1865, 139, 460, -1149], [633, 139, 1360, 589, -360],
+      [1707, 460, 589, 2710, 342], [-144, -1149, -360, 342, 1155]] : List (List Int)).getD i []).getD j 0 : ℚ) / 256
+def exb5 : Vec := fun i => ([55/16, 2, 0, 45/16, 15/4] : List ℚ).getD i 0
+
+/-- the walk branch is exercised by the model, the run still ends at the convergence exit, and its result passes the
+checker (an instance of `block3_exit_kkt` evaluated by the kernel; before the repair the C code stopped right after
+the projected step, at a point that is not KKT) -/
+example :
+    let r := block3Run (exactEnv 5 exA5 exb5 (5 / 45035996273) 120 28) fun i => -(exb5 i)
+    r.2 = B3Exit.converged ∧ r.1.nWalk = 1 ∧ r.1.nBoundary = 1 ∧ r.1.nFull = 2 ∧
+      kktCheck 5 exA5 exb5 (at0 r.1.x) (fun _ => 5 / 45035996273) = true := by
+  decide +kernel
 
 end PsV
